@@ -91,7 +91,7 @@ func TestC11WideFolder(t *testing.T) {
 	ev := evid.New("C11", "TestC11WideFolder")
 	defer ev.Flush()
 	rapid.Check(t, func(rt *rapid.T) {
-		n := rapid.SampledFrom([]int{65535, 65536, 65540}).Draw(rt, "entries")
+		n := rapid.SampledFrom([]int{65536, 65537, 65540}).Draw(rt, "entries")
 		hidden := rapid.IntRange(0, 3).Draw(rt, "hiddenEntries")
 		inWorld(rt, hlsim.Options{Agreement: "a", Accounts: []hlsim.AccountSpec{acct("admin", "Admin", "adminpw", allAccess)}}, func(rt *rapid.T, w *hlsim.World) {
 			dir := filepath.Join(w.FileRoot, "wide")
